@@ -54,10 +54,10 @@ def runs(tier, seed):
             Run("c45_bech32", cases=24000, params={"nrand": 4000, "pairs_every": 40, "pairs_maxlen": 60}, timeout=3600, name="bech32"),
         ]
     return [
-        Run("c45_desc", cases=9600, params={"bad": 1, "subst_every": 32, "subst_sample": 3}, timeout=900, name="descriptor"),
-        Run("c45_bip32", cases=2400, timeout=900, name="bip32"),
-        Run("c45_addr", cases=40000, timeout=900, name="address"),
-        Run("c45_bech32", cases=1600, params={"nrand": 1500, "pairs_every": 50, "pairs_maxlen": 40}, timeout=900, name="bech32"),
+        Run("c45_desc", cases=8000, params={"bad": 1, "subst_every": 32, "subst_sample": 3}, timeout=900, name="descriptor"),
+        Run("c45_bip32", cases=2000, timeout=900, name="bip32"),
+        Run("c45_addr", cases=30000, timeout=900, name="address"),
+        Run("c45_bech32", cases=1200, params={"nrand": 1500, "pairs_every": 50, "pairs_maxlen": 40}, timeout=900, name="bech32"),
     ]
 
 
